@@ -441,12 +441,16 @@ func (r *runner) event(t chooser) bool {
 		r.quiescent(ev)
 	case 1:
 		in := running[t.pick("which_running", len(running))]
-		if r.m.inRestart && r.c.typ == act.SupervisorTypeRestForOne && in.Spec < r.m.restartLow && kit.IsKnown("C08", sigRFO) {
-			// open known finding: excluded by construction so that the search continues behind it
-			recSM.Excluded(sigRFO)
-			return true
-		}
 		reason := []error{gen.TerminateReasonNormal, suplab.ErrAbnormal, gen.TerminateReasonShutdown}[t.pick("reason", 3)]
+		if r.m.inRestart && r.c.typ == act.SupervisorTypeRestForOne && in.Spec < r.m.restartLow && kit.IsKnown("C08", sigRFO) {
+			// open known finding: excluded by construction so that the search continues behind it.
+			// With KeepOrder the code does move the restart position down to such a child, which is
+			// right whenever that child has to be restarted; only then the history goes on.
+			if !r.c.keep || !r.m.restartNeeded(in.Spec, reason) {
+				recSM.Excluded(sigRFO)
+				return true
+			}
+		}
 		if len(pending) > 0 {
 			r.nontriv = true
 		}
